@@ -38,13 +38,13 @@ def gen_cases(tier, seed):
     for si, s in enumerate(SECONDS[tier]):
         for b in range(0, 10 ** 6, BLOCK):
             yield {'k': 'sweep', 'sec': s, 'from': b}
-    for i in range(40 if tier == 'quick' else 400):
+    for i in range(40 if tier == 'quick' else 4000):
         yield {'k': 'writer', 's': seed * 1000003 + i}
-    for i in range(60 if tier == 'quick' else 2000):
+    for i in range(60 if tier == 'quick' else 50000):
         yield {'k': 'raw', 's': seed * 1000003 + i}
-    for i in range(100 if tier == 'quick' else 10000):
+    for i in range(100 if tier == 'quick' else 200000):
         yield {'k': 'conv', 's': seed * 1000003 + i}
-    for i in range(150 if tier == 'quick' else 5000):
+    for i in range(150 if tier == 'quick' else 100000):
         yield {'k': 'track', 's': seed * 1000003 + i}
 
 
